@@ -19,8 +19,8 @@ use super::Report;
 
 // ------------------------------------------------------------------------------------------------ PDU
 #[derive(Clone, Debug)]
-struct Pdu {
-    event_id: OwnedEventId,
+pub(super) struct Pdu {
+    pub(super) event_id: OwnedEventId,
     room_id: OwnedRoomId,
     sender: OwnedUserId,
     event_type: TimelineEventType,
@@ -29,6 +29,7 @@ struct Pdu {
     prev_events: Vec<OwnedEventId>,
     auth_events: Vec<OwnedEventId>,
     redacts: Option<OwnedEventId>,
+    ts: u64,
 }
 
 impl Event for Pdu {
@@ -43,7 +44,7 @@ impl Event for Pdu {
         &self.sender
     }
     fn origin_server_ts(&self) -> MilliSecondsSinceUnixEpoch {
-        MilliSecondsSinceUnixEpoch(0_u32.into())
+        MilliSecondsSinceUnixEpoch(js_int::UInt::try_from(self.ts).unwrap())
     }
     fn event_type(&self) -> &TimelineEventType {
         &self.event_type
@@ -68,7 +69,7 @@ impl Event for Pdu {
 // ------------------------------------------------------------------------------------------------ model
 /// a power level as written in the content
 #[derive(Clone, Debug, PartialEq)]
-enum Lv {
+pub(super) enum Lv {
     Int(i64),
     /// a string holding an integer: accepted before room version 10 only
     Str(i64),
@@ -93,9 +94,9 @@ impl Lv {
 }
 
 #[derive(Clone, Debug, Default)]
-struct Pl {
-    users: Vec<(String, Lv)>,
-    events: Vec<(String, Lv)>,
+pub(super) struct Pl {
+    pub(super) users: Vec<(String, Lv)>,
+    pub(super) events: Vec<(String, Lv)>,
     notifications: Vec<(String, Lv)>,
     users_default: Option<Lv>,
     events_default: Option<Lv>,
@@ -118,7 +119,7 @@ impl Pl {
             _ => &self.redact,
         }
     }
-    fn json(&self) -> Value {
+    pub(super) fn json(&self) -> Value {
         let mut m = Map::new();
         let map = |v: &Vec<(String, Lv)>| Value::Object(v.iter().map(|(k, l)| (k.clone(), l.json())).collect());
         if !self.users.is_empty() {
@@ -160,26 +161,26 @@ impl Pl {
 }
 
 #[derive(Clone, Debug)]
-struct St {
+pub(super) struct St {
     /// (sender of m.room.create, `creator` field present, m.federate: None absent / Some(Ok(b)) / Some(Err) malformed)
-    create: Option<(String, bool, Option<Result<bool, ()>>)>,
-    pl: Option<Pl>,
-    join_rule: Option<String>,
-    members: Vec<(String, String)>,
+    pub(super) create: Option<(String, bool, Option<Result<bool, ()>>)>,
+    pub(super) pl: Option<Pl>,
+    pub(super) join_rule: Option<String>,
+    pub(super) members: Vec<(String, String)>,
 }
 
 #[derive(Clone, Debug)]
-struct Ev {
-    ty: String,
-    sender: String,
-    state_key: Option<String>,
-    content: Value,
-    prev_events: Vec<String>,
-    auth_events: Vec<String>,
-    redacts: Option<String>,
-    room_id: String,
+pub(super) struct Ev {
+    pub(super) ty: String,
+    pub(super) sender: String,
+    pub(super) state_key: Option<String>,
+    pub(super) content: Value,
+    pub(super) prev_events: Vec<String>,
+    pub(super) auth_events: Vec<String>,
+    pub(super) redacts: Option<String>,
+    pub(super) room_id: String,
     /// for m.room.power_levels events: the model of the new content
-    new_pl: Option<Pl>,
+    pub(super) new_pl: Option<Pl>,
 }
 
 fn server(id: &str) -> &str {
@@ -187,9 +188,9 @@ fn server(id: &str) -> &str {
 }
 
 // ------------------------------------------------------------------------------------------------ oracle
-struct O<'a> {
-    rules: &'a AuthorizationRules,
-    st: &'a St,
+pub(super) struct O<'a> {
+    pub(super) rules: &'a AuthorizationRules,
+    pub(super) st: &'a St,
 }
 impl O<'_> {
     fn membership(&self, u: &str) -> String {
@@ -205,7 +206,7 @@ impl O<'_> {
             Err(())
         }
     }
-    fn user_level(&self, u: &str) -> Result<i64, ()> {
+    pub(super) fn user_level(&self, u: &str) -> Result<i64, ()> {
         match &self.st.pl {
             None => Ok(if self.creator()? == u { 100 } else { 0 }),
             Some(pl) => {
@@ -236,7 +237,7 @@ impl O<'_> {
         }
     }
 
-    fn auth(&self, ev: &Ev) -> bool {
+    pub(super) fn auth(&self, ev: &Ev) -> bool {
         self.auth_r(ev).unwrap_or(false)
     }
     /// Err = a needed part of the state / event is malformed: reject
@@ -437,7 +438,14 @@ impl O<'_> {
 }
 
 // ------------------------------------------------------------------------------------------------ rendering
-fn pdu(id: &str, sender: &str, ty: &str, state_key: Option<&str>, content: &Value, prev: &[String], auth: &[String], redacts: Option<&str>, room: &str) -> Pdu {
+#[allow(clippy::too_many_arguments)]
+pub(super) fn pdu_ts(id: &str, sender: &str, ty: &str, state_key: Option<&str>, content: &Value, prev: &[String], auth: &[String], room: &str, ts: u64) -> Pdu {
+    let mut p = pdu(id, sender, ty, state_key, content, prev, auth, None, room);
+    p.ts = ts;
+    p
+}
+
+pub(super) fn pdu(id: &str, sender: &str, ty: &str, state_key: Option<&str>, content: &Value, prev: &[String], auth: &[String], redacts: Option<&str>, room: &str) -> Pdu {
     Pdu {
         event_id: OwnedEventId::try_from(id).unwrap(),
         room_id: OwnedRoomId::try_from(room).unwrap(),
@@ -448,6 +456,7 @@ fn pdu(id: &str, sender: &str, ty: &str, state_key: Option<&str>, content: &Valu
         prev_events: prev.iter().map(|e| OwnedEventId::try_from(e.as_str()).unwrap()).collect(),
         auth_events: auth.iter().map(|e| OwnedEventId::try_from(e.as_str()).unwrap()).collect(),
         redacts: redacts.map(|r| OwnedEventId::try_from(r).unwrap()),
+        ts: 0,
     }
 }
 
